@@ -66,6 +66,17 @@ CHECKS = {
              "census of the model; the failing/errored listings must equal the failed / error-class scenarios.",
         note="Trusted: census walker and line parsers in vf/props/c14.py. SummaryReporterV2 (unused alias, crashes in print_summary) "
              "is not exercised; the collector is driven directly."),
+    "C13": dict(
+        level="fault_enumeration", design="DESIGN.md 5/C13",
+        technique="stateful model-based testing (Hypothesis RuleBasedStateMachine over a real Context vs. a list-of-dicts model, "
+                  "any subset of cleanups raising) + complete enumeration of short histories + generated real runs with probes",
+        text="Operation histories (push/pop, set/get/delete/contains, root attributes, use_or_*, add_cleanup plain/args/layer=, "
+             "re-added functions, generator/plain/failing/raising/composite fixtures, mode switches) are applied to a real Context and "
+             "to a reference model, comparing visibility of every name, the cleanup/fixture log, re-raising and frame removal after "
+             "every operation; all histories up to length 4 (5 in thorough) over a reduced alphabet are enumerated completely. Real "
+             "runs probe attribute visibility at every hook/step, cleanup order/position/exactly-once, error status of the owning "
+             "element, and restoration of text/table after execute_steps.",
+        note="Trusted: the list-of-dicts model in vf/props/c13.py and vf/refmodel.py. The root scope is never popped (as in real runs)."),
 }
 
 PENDING_REASON = "not yet claimed in this revision: the check for this property is still under construction (see DESIGN.md 5)"
